@@ -371,12 +371,6 @@ Definition read_ok (sp : mspec) : bool :=
   match ms_kind sp with KInt _ w => (w =? 1) || (w =? 2) || (w =? 4) | _ => true end.
 
 (* signExtend as written, (value << (64-8n)) >> (64-8n) on int64, is two's-complement reinterpretation *)
-Lemma shl64_small a k : 0 <= k < 64 -> shl64 a k = wrap64 (a * 2 ^ k).
-Proof. intro H. unfold shl64. destruct (Z.ltb_spec k 0); [lia|]. rewrite Z.geb_leb. destruct (Z.leb_spec 64 k); [lia|reflexivity]. Qed.
-
-Lemma shr64_small a k : 0 <= k < 64 -> shr64 a k = a / 2 ^ k.
-Proof. intro H. unfold shr64. destruct (Z.ltb_spec k 0); [lia|]. rewrite Z.geb_leb. destruct (Z.leb_spec 64 k); [lia|reflexivity]. Qed.
-
 Lemma sign_extend_case u n p k h :
   64 - 8 * n = k -> 0 <= k < 64 -> 2 ^ k = p -> 2 ^ (8 * n - 1) = h -> 2 ^ (8 * n) = 2 * h -> 2 * h * p = two64 -> 0 < p -> 0 < h ->
   0 <= u < 2 ^ (8 * n) -> sign_extend u n = to_signed u n.
